@@ -77,8 +77,20 @@ def judge_parse(req, impl, model, spec):
     return r
 
 
+def judge_lex(req, impl, model, spec):
+    from props import C11
+    r = C11.judge_soup(req, impl, model, spec) if not impl.startswith("same ") else C11.judge(req, impl, model, spec)
+    if not impl.startswith("PANIC"):
+        r["oracle"] = True
+        r["what"] = ""
+    return r
+
+
 def streams(tier, seed):
     q = tier == "quick"
     return [{"name": "region", "stream": "region", "count": 20000 if q else 1500000, "judge": judge_region},
             {"name": "diag", "stream": "diag", "count": 3000 if q else 200000, "judge": judge_diag},
-            {"name": "parse", "stream": "parse", "count": 2000 if q else 100000, "judge": judge_parse}]
+            {"name": "parse", "stream": "parse", "count": 2000 if q else 100000, "judge": judge_parse},
+            # the spans of the tokens themselves (the tie of C14_token_spans): real lexer against the lexer model
+            {"name": "lex", "stream": "lex", "count": 3000 if q else 200000, "judge": judge_lex},
+            {"name": "literal", "stream": "literal", "count": 2000 if q else 100000, "judge": judge_lex}]
